@@ -7,6 +7,8 @@ import PydapModel.Ssf
 import Proofs.Ssf
 import Proofs.SsfProxy
 import Proofs.SsfSrc
+import Proofs.SsfHandle
+import Proofs.SsfInner
 namespace Pydap.C19
 open Pydap Pydap.Handler Pydap.Ssf
 
@@ -281,5 +283,169 @@ example : runItem [("selection", .str (codesOf cs!"s.t=\"(a)\"")), ("@function_m
 open MiniPy in
 example : runItem [("selection", .str (codesOf cs!"s.i>1")), ("@function_match", fmatchVal cs!"s.i>1"),
     ("@relop_search", rsearchOf [] (.int 7) cs!"s.i>1")] Gen.src_is_call "@ret" = .ok (.bool false) := by decide
+
+/-! ### round 6: calls beside ordinary projection items (`ServerSideFunctions.handle` past the routing)
+
+`fnDataset ev ds proj sel` is the dataset the function branch hands to the response class: inner request (the
+function-free clauses, no projection) answered by `BaseHandler`, `fix_shorthand`, the split into ordinary items and
+calls, `apply_projection` on the ordinary items, the insertion loop.  `ev inner call` stands for
+`eval_function(dataset, call, self.functions)`.  Hypotheses of the two theorems, all of them facts about what the
+middleware is given: `Keyed ds` (names are dict keys: pairwise distinct; so are column names; a record has one value per
+column), and the selection `sel` as `parse_ce` hands it over with no call in it, no `%` left in a clause, the first clause a
+comparison and not spelled `dap4.ce=…` (`C19_inner_reparse_sharp` below: without a comparison in the first clause the
+inner request reads that clause as a *projection*). -/
+
+/-- **the ordinary items are served as without the calls, the results follow**: if the function branch answers, the
+    calls were all evaluated on the dataset with the selection applied, and
+    * with at least one ordinary item, the handler answers the request *without the calls* (`constrain`, hyperslabs and
+      record ranges included) and the answer is that very dataset — same variables, same declarations, same values,
+      same order — followed by the results whose name was still free, in the order of the calls;
+    * with calls only, the answer holds the results only (the handler would serve *every* variable for an empty
+      projection; the middleware does not). -/
+theorem C19_ordinary_items_unchanged (ev : Dataset → Str → Except Exc Var) (ds ans : Dataset)
+    (proj : List ProjItem) (sel : List Str) (hk : Keyed ds)
+    (hs : ∀ s ∈ sel, s ≠ [] ∧ '&' ∉ s ∧ '%' ∉ s ∧ isCallSel s = false)
+    (hh : ∀ s ∈ sel.head?, s.any isRelChar = true) (hd : (stripped sel).take 8 ≠ dap4Prefix)
+    (hp : proj ≠ []) (h : fnDataset ev ds proj sel = .ok ans) :
+    ∃ inner rs, applySelection sel ds = .ok inner ∧ evalCalls ev inner (callsOf proj) = .ok rs ∧
+      (ordinary proj ≠ [] → ∃ base, constrain ds (ordinary proj) sel = .ok base ∧
+        ans = { base with vars := base.vars ++ appended (base.vars.map Var.name) rs }) ∧
+      (ordinary proj = [] → ans = { inner with vars := appended [] rs }) := by
+  unfold fnDataset at h
+  have hc : constrained ds (stripped sel) = applySelection sel ds := by
+    unfold constrained; rw [parseCE_stripped sel hs hh hd]; exact constrain_nil ds sel hk
+  rw [hc] at h
+  cases h1 : applySelection sel ds with
+  | error e => simp [h1] at h
+  | ok inner =>
+    have hno : sel.any isCallSel = false := List.any_eq_false.mpr (fun s hs' => by simp [(hs s hs').2.2.2])
+    simp only [h1, hno, Bool.false_eq_true, ↓reduceIte] at h
+    obtain ⟨items, base, rs, hi, hb, hr, ha⟩ := fnProject_ok ev inner ans proj hp h
+    refine ⟨inner, rs, rfl, hr, ?_, ?_⟩
+    · intro hne
+      exact ⟨base, by rw [constrain_cons ds inner _ sel hne h1, hi]; exact hb, ha⟩
+    · intro he
+      rw [he] at hi
+      simp only [List.mapM_nil, pure, Except.pure, Except.ok.injEq] at hi
+      subst hi
+      have : base = { inner with vars := [] } := by
+        have : applyProjection [] inner = .ok { inner with vars := [] } := rfl
+        rw [this] at hb; exact (Except.ok.inj hb).symm
+      subst this
+      simpa using ha
+
+/-- **errors**: a request whose ordinary items (with the function-free selection) the handler answers with an error
+    document is not answered by the function branch either; conversely (`C19_ordinary_items_unchanged`) when the
+    function branch answers, the handler answers the request without the calls.  What can fail *beside* that: the
+    evaluation of a call, a call spelled with one character (`fix_shorthand` pops from a string: AttributeError), and
+    the unresolved insertions. -/
+theorem C19_ordinary_item_fails (ev : Dataset → Str → Except Exc Var) (ds : Dataset)
+    (proj : List ProjItem) (sel : List Str) (e : Exc) (hk : Keyed ds)
+    (hs : ∀ s ∈ sel, s ≠ [] ∧ '&' ∉ s ∧ '%' ∉ s ∧ isCallSel s = false)
+    (hh : ∀ s ∈ sel.head?, s.any isRelChar = true) (hd : (stripped sel).take 8 ≠ dap4Prefix)
+    (hne : ordinary proj ≠ []) (he : constrain ds (ordinary proj) sel = .error e) :
+    ∃ e', fnDataset ev ds proj sel = .error e' := by
+  cases h : fnDataset ev ds proj sel with
+  | error e' => exact ⟨e', rfl⟩
+  | ok ans =>
+    have hp : proj ≠ [] := fun e0 => hne (by rw [e0]; rfl)
+    obtain ⟨_, _, _, _, h1, _⟩ := C19_ordinary_items_unchanged ev ds ans proj sel hk hs hh hd hp h
+    obtain ⟨base, hb, _⟩ := h1 hne
+    rw [he] at hb; cases hb
+
+/-- **order of the results**: results with pairwise distinct names, none of them the name of an ordinary variable of
+    the answer, are all in the answer, after the ordinary variables, in the order of the calls.  Otherwise: what is
+    appended is a sub-list of the results in call order; a result whose name is taken — by an ordinary variable or by an
+    earlier result — is *not in the answer* (for a `BaseType` result; a constructor is merged into the variable of that
+    name: not resolved by the model). -/
+theorem C19_result_order (names : List Str) (rs : List Var) :
+    ((rs.map Var.name).Nodup → (∀ v ∈ rs, v.name ∉ names) → appended names rs = rs) ∧
+    (appended names rs).Sublist rs ∧
+    (∀ v, names.contains v.name = true → appended names (v :: rs) = appended names rs) := by
+  refine ⟨appended_all names rs, ?_, fun v hv => by simp only [appended, hv, ↓reduceIte]⟩
+  induction rs generalizing names with
+  | nil => exact List.Sublist.refl _
+  | cons v vs ih =>
+    cases hc : names.contains v.name
+    · simp only [appended, hc, Bool.false_eq_true, ↓reduceIte]; exact (ih _).cons_cons v
+    · simp only [appended, hc, ↓reduceIte]; exact (ih _).cons v
+
+/-- the whole answer: for a request `route` sends to the function branch, with a modelled response, the middleware
+    answers 200 with the body the response class prints for `fnDataset`'s dataset -/
+theorem C19_function_branch_answer (fmt : Int → Str) (ev : Dataset → Str → Except Exc Var) (ds ans : Dataset)
+    (path query pre resp : Str) (proj : List ProjItem) (sel : List Str) (k : Kind)
+    (hq : parseCE query = .ok (proj, sel)) (hp : rsplitDot path = some (pre, resp)) (hd : resp ≠ cs!"das")
+    (hc : hasCall proj sel = true) (hk : lookupKind resp = some k) (hko : k ≠ .other)
+    (h : fnDataset ev ds proj sel = .ok ans) :
+    ssfHandle fmt ev ds path query = .ok k (bodyOf fmt k ans) := by
+  have hr := C19_strip path query pre resp proj sel hq hp hd hc
+  unfold ssfHandle ssf
+  rw [hr]
+  simp only [fnBranch, hq, hp, hk, h]
+
+/-- where the inner request differs from the handler's reading of the same clauses: a function-free clause without a
+    comparison (`…&s`), which the handler ignores, is the *projection* of the inner request -/
+theorem C19_inner_reparse_sharp :
+    parseCE (stripped [cs!"s", cs!"f(1)"]) = .ok ([.path [(cs!"s", [])]], []) := by decide
+
+-- non-vacuity: a dataset with an array and a sequence; `a[1:2]` beside `mean(b,0)` and `s.i>1`
+def exDs : Dataset := ⟨cs!"d", [.base { name := cs!"a", ty := cs!"Int32", shape := [3], dims := [], data := [5, 6, 7] },
+  .base { name := cs!"b", ty := cs!"Int32", shape := [2], dims := [], data := [1, 3] }, .seq cs!"s" [(cs!"i", cs!"Int32")] [[1], [2], [3]]]⟩
+def exEv (_ : Dataset) (c : Str) : Except Exc Var :=
+  if c = cs!"mean(b,0)" then .ok (.base { name := cs!"b", ty := cs!"Float64", shape := [], dims := [], data := [2] })
+  else if c = cs!"mean(a,0)" then .ok (.base { name := cs!"a", ty := cs!"Float64", shape := [], dims := [], data := [6] }) else .error .keyError
+
+example : Keyed exDs := by
+  refine ⟨by decide, ?_⟩
+  intro v hv
+  simp only [exDs, List.mem_cons, List.not_mem_nil, or_false] at hv
+  rcases hv with rfl | rfl | rfl
+  · trivial
+  · trivial
+  · exact ⟨by decide, by decide⟩
+example : (fnDataset exEv exDs [.call cs!"mean(b,0)", .path [(cs!"a", [⟨some 1, some 3, some 1⟩])], .path [(cs!"i", [])]] [cs!"s.i>1"]).map (·.shown.vars)
+    = .ok [.base { name := cs!"a", ty := cs!"Int32", shape := [2], dims := [], data := [6, 7] }, .seq cs!"s" [(cs!"i", cs!"Int32")] [[2], [3]],
+           .base { name := cs!"b", ty := cs!"Float64", shape := [], dims := [], data := [2] }] := by decide
+-- a result whose name is taken is not in the answer; calls only: the results only
+example : (fnDataset exEv exDs [.path [(cs!"a", [])], .call cs!"mean(a,0)"] []).map (·.shown.vars)
+    = .ok [.base { name := cs!"a", ty := cs!"Int32", shape := [3], dims := [], data := [5, 6, 7] }] := by decide
+example : (fnDataset exEv exDs [.call cs!"mean(a,0)", .call cs!"mean(b,0)"] []).map (·.shown.vars)
+    = .ok [.base { name := cs!"a", ty := cs!"Float64", shape := [], dims := [], data := [6] }, .base { name := cs!"b", ty := cs!"Float64", shape := [], dims := [], data := [2] }] := by decide
+-- a failing ordinary item fails the request
+example : ∃ e, constrain exDs [.path [(cs!"a", [⟨some 5, some 6, some 1⟩])]] [] = .error e ∧
+    fnDataset exEv exDs [.path [(cs!"a", [⟨some 5, some 6, some 1⟩])], .call cs!"mean(b,0)"] [] = .error e := ⟨.ceError, by decide, by decide⟩
+example : ssfHandle intText exEv exDs cs!"/d.dds" cs!"mean(b,0),i&s.i>1"
+    = .ok .dds (.complete cs!"Dataset {\n    Sequence {\n        Int32 i;\n    } s;\n    Float64 b;\n} d;\n") := by decide
+
+/-! ### round 6: the keyword functions of an application are that application's (`__init__`) -/
+
+/-- **per-application function tables**: for every history of application constructions with arbitrary keyword
+    tables, `self.functions[name]` of application `i` is the entry of *its own* keywords when it was built with that
+    keyword (the last one, were a name given twice), else the stock function — whatever the other applications were
+    built with, before or after; and `load_functions()` still hands out the stock table afterwards. -/
+theorem C19_functions_per_application (stock : Table) (kws : List Table) (i : Nat) (hi : i < kws.length) (n : Str) :
+    appLookup (buildApps ⟨stock, []⟩ kws) i n = (tlookup kws[i].reverse n).or (tlookup stock n) ∧
+    (loadFunctions (buildApps ⟨stock, []⟩ kws)).1 = stock := by
+  refine ⟨?_, by simp [loadFunctions, buildApps_stock]⟩
+  unfold appLookup
+  rw [buildApps_apps]
+  simp only [List.nil_append, List.getElem?_map, List.getElem?_eq_getElem hi, Option.map_some, Option.bind_some]
+  exact tlookup_tupdate _ _ _
+
+/-- the statement has teeth: the process of seed C19-z (one memoised table that `update` writes into) violates it —
+    a default application built *before* one with `mean=…` looks the foreign function up -/
+theorem C19_shared_table_refuted :
+    ¬ ∀ (stock : Table) (kws : List Table) (i : Nat) (hi : i < kws.length) (n : Str),
+      appLookupShared (buildAppsShared ⟨stock, 0⟩ kws) i n = (tlookup kws[i].reverse n).or (tlookup stock n) := by
+  intro h
+  have := h [(cs!"mean", 0)] [[], [(cs!"mean", 7)]] 0 (by decide) cs!"mean"
+  revert this
+  decide
+
+example : appLookup (buildApps ⟨[(cs!"mean", 0), (cs!"bounds", 1)], []⟩ [[], [(cs!"mean", 7), (cs!"f", 8)], []]) 0 cs!"mean" = some 0 := by decide
+example : appLookup (buildApps ⟨[(cs!"mean", 0), (cs!"bounds", 1)], []⟩ [[], [(cs!"mean", 7), (cs!"f", 8)], []]) 1 cs!"mean" = some 7 := by decide
+example : appLookup (buildApps ⟨[(cs!"mean", 0), (cs!"bounds", 1)], []⟩ [[], [(cs!"mean", 7), (cs!"f", 8)], []]) 2 cs!"f" = none := by decide
+example : (buildApps ⟨[(cs!"mean", 0), (cs!"bounds", 1)], []⟩ [[(cs!"f", 8), (cs!"mean", 7)]]).apps
+    = [[(cs!"mean", 7), (cs!"bounds", 1), (cs!"f", 8)]] := by decide
 
 end Pydap.C19
